@@ -146,12 +146,20 @@ StrReplaceAll(s, old, new) ==        \* strings.ReplaceAll with non-empty old
   ELSE <<Head(s)>> \o StrReplaceAll(Tail(s), old, new)
 StrContains(s, sub) == \E i \in 1..(Len(s) - Len(sub) + 1) : SubSeq(s, i, i + Len(sub) - 1) = sub
 
-\* value -> string as the VM's I2s / F2s conversions do; a non-integral float becomes one opaque atom
-\* "~n/d" that the harness renders with Go's %g (the model decides THAT a conversion happens, not its digits)
+\* value -> string as the VM's I2s / F2s conversions do.  Every float of the model is a dyadic rational
+\* (typed grammar: float literals and tokens are dyadic, float division only by powers of two), so its
+\* shortest round-trip decimal form (%g) is its exact finite decimal expansion.
+RECURSIVE IsPow2(_), FracDigits(_, _)
+IsPow2(d) == d = 1 \/ (d % 2 = 0 /\ IsPow2(d \div 2))
+FracDigits(r, d) == IF r = 0 THEN <<>> ELSE <<Digits[((r * 10) \div d) + 1]>> \o FracDigits((r * 10) % d, d)
+FloatStrOK(v) == IsPow2(v.d) /\ v.d <= 8192 /\ Abs(v.n) <= 100000000       \* plain (non-exponent) %g form, no overflow in FracDigits
+FloatToStr(v) == LET a == Abs(v.n)  ip == a \div v.d  r == a % v.d IN
+                 (IF v.n < 0 THEN <<"-">> ELSE <<>>) \o IntToStr(ip) \o (IF r = 0 THEN <<>> ELSE <<".">> \o FracDigits(r, v.d))
 ToStr(v) == CASE v.k = "s" -> v.v
               [] v.k = "i" -> IntToStr(v.v)
-              [] v.k = "f" -> IF v.d = 1 THEN IntToStr(v.n) ELSE << "~" \o ToString(v.n) \o "/" \o ToString(v.d) >>
+              [] v.k = "f" -> IF FloatStrOK(v) THEN FloatToStr(v) ELSE << "~bad" >>
               [] OTHER -> << "~bad" >>
+StrBad(s) == \E i \in 1..Len(s) : s[i] = "~bad"
 
 -----------------------------------------------------------------------------
 (* Pattern matching on token sequences.                                    *)
@@ -236,7 +244,7 @@ CoerceTo(ty, v) ==
                         ELSE IF v.k = "s" /\ PureStr(v.v)
                              THEN LET p == ParseFloatS(v.v) IN [ok |-> p.ok /\ ~p.ovf, v |-> IF p.ovf THEN OvfV ELSE p.v]
                         ELSE [ok |-> FALSE, v |-> [k |-> "fault"]]
-    [] OTHER         -> [ok |-> TRUE, v |-> StrV(ToStr(v))]
+    [] OTHER         -> [ok |-> TRUE, v |-> IF StrBad(ToStr(v)) THEN OvfV ELSE StrV(ToStr(v))]
 
 -----------------------------------------------------------------------------
 (* Expressions.  Eval returns [v, st]; st.err set => v meaningless.        *)
@@ -320,7 +328,8 @@ Eval(P, e, st) ==
                 IF x.k = "s" /\ y.k = "s" THEN R(BoolV(CmpOK(e.op, StrLt(x.v, y.v), x.v = y.v)), s2)
                 ELSE IF IsNum(x) /\ IsNum(y) THEN R(BoolV(CmpOK(e.op, RLt(ToRat(x), ToRat(y)), REq(ToRat(x), ToRat(y)))), s2)
                 ELSE R(Null, [s2 EXCEPT !.ovf = TRUE])               \* outside the typed grammar
-           ELSE IF e.op = "cat" THEN R(StrV(ToStr(x) \o ToStr(y)), s2)
+           ELSE IF e.op = "cat" THEN
+                IF StrBad(ToStr(x) \o ToStr(y)) THEN R(Null, [s2 EXCEPT !.ovf = TRUE]) ELSE R(StrV(ToStr(x) \o ToStr(y)), s2)
            ELSE IF e.op \in {"&", "|", "^"} THEN
                 IF x.k = "i" /\ y.k = "i" /\ x.v >= 0 /\ y.v >= 0 THEN R(IntV(BitOp(e.op, x.v, y.v)), s2)
                 ELSE R(Null, [s2 EXCEPT !.ovf = TRUE])
@@ -359,7 +368,7 @@ Eval(P, e, st) ==
               CASE e.f = "len"     -> R(IntV(Len(ToStr(a[1]))), s1)
                 [] e.f = "tolower" -> R(StrV([i \in 1..Len(ToStr(a[1])) |-> ToLowerC(ToStr(a[1])[i])]), s1)
                 [] e.f = "subst"   -> R(StrV(StrReplaceAll(ToStr(a[3]), ToStr(a[1]), ToStr(a[2]))), s1)
-                [] e.f = "string"  -> R(StrV(ToStr(a[1])), s1)
+                [] e.f = "string"  -> IF StrBad(ToStr(a[1])) THEN R(Null, [s1 EXCEPT !.ovf = TRUE]) ELSE R(StrV(ToStr(a[1])), s1)
                 [] e.f = "int"     -> LET c == CoerceTo("int", a[1]) IN
                                       IF ~c.ok THEN R(Null, Fail(s1)) ELSE IF c.v.k = "ovf" THEN R(Null, [s1 EXCEPT !.ovf = TRUE]) ELSE R(c.v, s1)
                 [] e.f = "float"   -> LET c == CoerceTo("float", a[1]) IN
@@ -390,7 +399,9 @@ EvalSeq(P, es, st, acc) ==
 \* index expressions -> label strings
 Labels(P, idx, st) ==
   LET r == EvalSeq(P, idx, st, <<>>) IN
-  IF Dead(r.st) THEN r ELSE R([i \in 1..Len(r.v) |-> ToStr(r.v[i])], r.st)
+  IF Dead(r.st) THEN r
+  ELSE LET ls == [i \in 1..Len(r.v) |-> ToStr(r.v[i])] IN
+       IF \E i \in 1..Len(ls) : StrBad(ls[i]) THEN R(ls, [r.st EXCEPT !.ovf = TRUE]) ELSE R(ls, r.st)
 
 -----------------------------------------------------------------------------
 (* Statements.  Exec returns the state; `fl` (did some conditional of THIS *)
